@@ -775,4 +775,3 @@ func (u *Unit) execReturn(st *State, x *ssa.Return) {
 	u.frameAtReturn(st, x, mkctx)
 	u.cover(st, x.Pos(), "return is reachable")
 }
-
